@@ -7,8 +7,8 @@ def run(ctx):
     ctx.rule = ("random create/send/measure/gate histories against capacities 1..5 qubits and 1..8 registers per node; oracle: a node never holds more "
                 "than its maximum, create/receive succeed iff held < max (and a register is available for create), freed capacity is reusable, "
                 "two-qubit gates are never refused for capacity; distinct = distinct (capacities, operation, dump)")
-    netprop.run_property(ctx, "C07", ["capacity", "capacity", "merge"], 1500 if t else 150, 30 if t else 24,
-                         scenarios=scen.capacity() + scen.register_limit() + scen.big_merge(), own_props=["C07"],
+    netprop.run_property(ctx, "C07", ["capacity", "capacity", "merge", "registers"], 1500 if t else 150, 30 if t else 24,
+                         scenarios=scen.capacity() + scen.register_limit() + scen.big_merge() + scen.register_api(), own_props=["C07"],
                          extra=concurrent_arrivals)
 
 
